@@ -594,7 +594,7 @@ def gen_ir(rng, n_calls, family=None, rich=True, cfg=None):
     unpacks = {}
     hashable = set()
     # keyword names: lexical order differs from the given order; some coincide with parameter names used inside the engine
-    KW = ["zeta", "alpha", "m10", "m9", "beta", "k2", "k10", "omega", "aa", "f", "fn", "attempts", "exc_type", "node", "args", "kwargs", "retry", "value", "self_"]
+    KW = ["zeta", "alpha", "m10", "m9", "beta", "k2", "k10", "omega", "aa", "f", "fn", "attempts", "exc_type", "node", "args", "kwargs", "retry", "value", "self_", "scope", "plan", "graph", "output", "registry", "length", "call", "progress", "key", "index"]
 
     def new_scope():
         if rng.random() >= p_scope:
